@@ -118,7 +118,9 @@ class Tree:
         sess = Stub('session', user=Stub('user', name=self.me)) if session else None
         self.accept = Sym(ctx.fresh_bool('accept_children'), 'bool')
         self.maxc = Sym(ctx.fresh_int('max_children'), 'int')
-        self.dn = new(it, DN, 'DistributedNetwork', _settings=settings, _event_bus=Stub('bus'), _network=self.network, _session=sess,
+        self.emitted = []
+        bus = Stub('bus', emit=Recorder('emit', fn=lambda it2, a, k: self.emitted.append(a[0]), is_async=True))
+        self.dn = new(it, DN, 'DistributedNetwork', _settings=settings, _event_bus=bus, _network=self.network, _session=sess,
                       parent=self.parent, children=list(self.children), potential_parents=[], distributed_peers=list(peers),
                       parent_min_speed=None, parent_speed_ratio=None, min_parents_in_cache=None, parent_inactivity_timeout=None,
                       distributed_alive_interval=None, _max_children=self.maxc, _accept_children=self.accept,
